@@ -6,6 +6,8 @@ relative-import rule.  Soundness against CPython is decided by the differential 
 -/
 import PdModel.Names
 import PdProps.C07
+import PdProps.C04c
+import PdProps.C04d
 
 namespace Names
 open Registry
@@ -109,3 +111,337 @@ example : resolveName exEnv 1 [['a'], ['K']] = some 2 := by decide
 example : resolveName exEnv 1 [['K', '2']] = some 2 := by decide
 
 end Names
+
+/-! # The code that BUILDS the alias maps, and soundness against Python as a theorem
+
+`PdModel/Imports.lean` transcribes the visitor (`visit_Import`, `visit_ImportFrom`, `_importNames`,
+`_importAll`, `_handleReExport`, `getProcessedModule`, `processModule`, …) over an abstract syntax of
+projects; `PdModel/PyImp.lean` transcribes what CPython's import machinery binds for the same
+project.  Helper layers: `PdProps/C04a.lean` (static relations, `WF` facts, `Jpy` is functional),
+`C04b.lean` (invariant of the pydoctor machine), `C04c.lean` (invariant of the Python machine),
+`C04d.lean` (`expandName` / `resolveName` on a finished state). -/
+
+namespace Imports
+open Registry
+
+theorem walk_path {st : State} (hI : Inv st) : ∀ (cp : List Name) (i j : Nat) (pp : Path),
+    path st i = some pp → walk st i cp = some j → path st j = some (pp ++ cp)
+  | [], i, j, pp, hp, hw => by
+    simp only [walk, Option.some.injEq] at hw; subst hw; simpa using hp
+  | c :: cs, i, j, pp, hp, hw => by
+    simp only [walk] at hw
+    cases ho : getObj st i with
+    | none => simp [ho] at hw
+    | some o =>
+      simp only [ho] at hw
+      cases hd : dget o.contents c with
+      | none => simp [hd] at hw
+      | some k =>
+        simp only [hd] at hw
+        have := walk_path hI cs k j (pp ++ [c]) (path_child hI ho hd hp) hw
+        simpa using this
+
+/-- The restrictions beyond the property's quantifier under which soundness is proved: no base
+classes (attribute lookup through the MRO is C05's subject), and no `__all__` re-export moves. -/
+def Restricted (proj : Project) : Bool := noBases proj && noReexport proj
+
+/-
+FULL STATEMENT (the property, at the level of the abstract project):
+
+  theorem resolve_sound (proj) (rank) (hq : WFq proj rank)      -- acyclic, unique names, bound once per scope
+      : pdResolve proj ordPd m cp name = some i₁ → pyDenotes proj ordPy m cp name = some i₂ → i₁ = i₂
+
+where `WFq` = `WF` without `noBases` and `noReexport`.  Proved below with the two restrictions
+(`WF` contains them: `Restricted`) and for runs of the analysis in which no registry exception and no
+duplicate definition occurred (`(run proj ordPd).bad = false`, a decidable property of the run that
+the `imports build` correspondence stream also checks on the real system).  With base classes the
+statement was FALSE of pydoctor until commit b8619e6 (a class attribute was looked up in the scopes
+enclosing the class statement before the inherited members: `M.resolveName('C.s')` gave `D.K1` where
+Python gives `D.K2`); that defect was found with this model, see notes/C04.md.
+-/
+
+/-- **soundness**: for every well-formed project, every processing order of pydoctor and every import
+order of Python, every scope (module `m`, class chain `cp`) and every dotted name: if pydoctor
+resolves the name in that scope to a documented object and Python binds the name there (first
+component in the scope's own namespace, the rest by attribute access), then they are the same
+object.  Equivalently: `pdResolve … = some obj → pyDenotes … ≠ none → pyDenotes … = some obj`. -/
+theorem resolve_sound_partial (proj : Project) (rank : List Nat) (hwf : WF proj rank = true)
+    (ordPd ordPy : List Nat) (hclean : (run proj ordPd).bad = false)
+    (m : Nat) (hm : m < proj.length) (cp : List Name) (name : Path) (i₁ i₂ : Ident)
+    (h1 : pdResolve proj ordPd m cp name = some i₁) (h2 : PyImp.pyDenotes proj ordPy m cp name = some i₂) :
+    i₁ = i₂ := by
+  have wf := WF.facts hwf
+  obtain ⟨hI, hn, _⟩ := run_ok wf ordPd hclean
+  obtain ⟨S, sv, hcase, hj, hid⟩ := pyDenotes_j wf h2
+  unfold pdResolve resolveIn at h1
+  generalize run proj ordPd = s at hI hn h1
+  cases hw : walk s.reg m cp with
+  | none => simp [hw] at h1
+  | some i =>
+    simp only [hw] at h1
+    cases hr : Names.resolveName (finalEnv s) i name with
+    | none => simp [hr] at h1
+    | some j =>
+      simp only [hr] at h1
+      obtain ⟨om, hom, hpm, hcm⟩ := hI.mods m hm
+      have hpi := walk_path hI.reg cp m i _ hpm hw
+      obtain ⟨oi, hoi⟩ : ∃ oi, s.reg.objs[i]? = some oi := ⟨s.reg.objs[i]'(path_lt hpi), by simp [path_lt hpi]⟩
+      obtain ⟨Si, hki, hpi'⟩ := hI.site i oi hoi
+      -- the scope pydoctor walked to is the scope Python walked to
+      have hSi : Si = S := by
+        rcases hcase with ⟨hcp, hS⟩ | ⟨hcp, hjc⟩
+        · subst hcp; subst hS
+          simp only [walk, Option.some.injEq] at hw; subst hw
+          rw [hpm] at hpi'; injection hpi' with hpi'
+          exact (site_unique wf hki.static ⟨hm, Or.inl rfl⟩ (by simpa [sitePath] using hpi'.symm))
+        · rw [hpi] at hpi'; injection hpi' with hpi'
+          have hc1 := canon_site wf hki.static
+          rw [← hpi'] at hc1
+          cases hcp' : cp with
+          | nil => exact absurd hcp' hcp
+          | cons y ys =>
+            rw [hcp'] at hjc hc1
+            have hc2 := AbsDen.ext (canon_mod wf m hm) (show Jpy proj (scopeOf (.mod m)) (y :: ys) _ from hjc)
+            have := AbsDen.fun wf hc1 hc2.weak
+            have h3 := congrArg scopeOf this
+            rw [scopeOf_svalOf] at h3
+            exact h3
+      subst hSi
+      have := resolve_sound_state wf hI hn hoi hpi' hki hj hr
+      rw [this] at h1; injection h1 with h1
+      rw [← h1, hid]
+
+end Imports
+
+namespace Imports
+open Registry
+
+/-! ## completeness at the level of the project -/
+
+/-- on a finished clean state, an import statement of a processed module left exactly its alias entry -/
+theorem alias_of_stmt {proj : Project} {rank : List Nat} (wf : WFacts proj rank) {s : St} (hI : PdInv proj s)
+    {m : Nat} (hm : m < proj.length) (hproc : getPs s m = .processed) {st : Stmt} {x : Name}
+    (hst : st ∈ bodyOf proj m) (hx : x ∈ explicitNames st) (himp : st.defName = none) :
+    ∃ o tgt, s.reg.objs[m]? = some o ∧ isModuleCls o.cls = true ∧ dget o.contents x = none ∧
+      dget o.aliases x = some tgt ∧ StmtD proj (m, []) st x tgt := by
+  have hmd : proj[m]? = some proj[m] := by simp [hm]
+  have hb : siteBody proj (m, []) = some (bodyOf proj m) := siteBody_zero hm
+  have hcomp := hI.complete m _ hmd hproc
+  rw [← bodyOf_eq hmd] at hcomp
+  obtain ⟨o, ho, hent⟩ := complete_entry (hcomp.mem hst) hx
+  obtain ⟨o', ho', hpm, hcl⟩ := hI.mods m hm
+  rw [ho] at ho'; injection ho' with ho'; subst ho'
+  have hmo : isModuleCls o.cls = true := by rw [hcl, modCls]; split <;> rfl
+  have hxs : x ∈ stmtNamesR proj rank (m, []) st := stmtNames_of_explicit hx
+  have hcn : dget o.contents x = none := by
+    cases hd : dget o.contents x with
+    | none => rfl
+    | some c =>
+      exfalso
+      rcases hI.cont m o hm ho x c hd with hch | ⟨st', hst', hd'⟩
+      · exact child_not_stmt wf hb hch hst hxs
+      · have := same_stmt wf hb hst hst' hxs (stmtNames_of_explicit (defName_explicit hd'))
+        subst this; rw [himp] at hd'; cases hd'
+  have ha : dget o.aliases x ≠ none := by
+    rcases hent with h | h
+    · exact absurd hcn h
+    · exact h
+  cases hda : dget o.aliases x with
+  | none => exact absurd hda ha
+  | some tgt =>
+    have hj := hI.alias m o (m, []) ho (by simpa [sitePath] using hpm) ⟨hm, Or.inl rfl⟩ x tgt hda
+    obtain ⟨b, st2, hb2, hst2, hx2, hD⟩ := jpd_inv wf hj
+    rw [hb] at hb2; injection hb2 with hb2; subst hb2
+    have := same_stmt wf hb hst hst2 hxs hx2
+    subst this
+    exact ⟨o, tgt, ho, hmo, hcn, hda, hD⟩
+
+/-- a top-level definition of a processed module is registered under the module's name + its own -/
+theorem def_registered {proj : Project} {rank : List Nat} (wf : WFacts proj rank) {s : St} (hI : PdInv proj s)
+    {t : Nat} (ht : t < proj.length) (hproc : getPs s t = .processed) {st : Stmt} {n : Name}
+    (hst : st ∈ bodyOf proj t) (hd : st.defName = some n) :
+    ∃ o c, s.reg.objs[t]? = some o ∧ isModuleCls o.cls = true ∧ dget o.contents n = some c ∧
+      path s.reg c = some (pathOf proj t ++ [n]) ∧ dget s.reg.all (pathOf proj t ++ [n]) = some c ∧
+      identOf s.reg c = some (.dfn (pathOf proj t ++ [n])) := by
+  have hmd : proj[t]? = some proj[t] := by simp [ht]
+  have hcomp := hI.complete t _ hmd hproc
+  rw [← bodyOf_eq hmd] at hcomp
+  have hcs := hcomp.mem hst
+  obtain ⟨o, ho, hpm, hcl⟩ := hI.mods t ht
+  have hmo : isModuleCls o.cls = true := by rw [hcl, modCls]; split <;> rfl
+  have hcont : ∃ c, dget o.contents n = some c := by
+    cases st with
+    | classDef n' bs body =>
+      simp only [Stmt.defName, Option.some.injEq] at hd; subst hd
+      simp only [CompleteStmt] at hcs
+      obtain ⟨c, _, po, hpo, hdc, _⟩ := hcs
+      rw [ho] at hpo; injection hpo with hpo; subst hpo
+      exact ⟨c, hdc⟩
+    | funcDef n' =>
+      simp only [Stmt.defName, Option.some.injEq] at hd; subst hd
+      simp only [CompleteStmt] at hcs
+      obtain ⟨po, c, hpo, hdc⟩ := hcs
+      rw [ho] at hpo; injection hpo with hpo; subst hpo
+      exact ⟨c, hdc⟩
+    | assign n' v =>
+      simp only [Stmt.defName, Option.some.injEq] at hd; subst hd
+      simp only [CompleteStmt] at hcs
+      obtain ⟨po, c, hpo, hdc⟩ := hcs
+      rw [ho] at hpo; injection hpo with hpo; subst hpo
+      exact ⟨c, hdc⟩
+    | importMod _ _ => simp [Stmt.defName] at hd
+    | importFrom _ _ _ _ => simp [Stmt.defName] at hd
+    | importStar _ _ => simp [Stmt.defName] at hd
+    | allAssign _ => simp [Stmt.defName] at hd
+  obtain ⟨c, hdc⟩ := hcont
+  have hpc := path_child hI.reg ho hdc hpm
+  have hreg := dget_of_path hI.reg hpc
+  refine ⟨o, c, ho, hmo, hdc, hpc, hreg, ?_⟩
+  obtain ⟨oc, hoc⟩ : ∃ oc, s.reg.objs[c]? = some oc := ⟨s.reg.objs[c]'(path_lt hpc), by simp [path_lt hpc]⟩
+  obtain ⟨Sc, hkc, hpc'⟩ := hI.site c oc hoc
+  have hstat : StaticSite proj (t, [n]) :=
+    ⟨ht, Or.inr ⟨[], n, bodyOf proj t, st, rfl, siteBody_zero ht, hst, hd⟩⟩
+  have : Sc = (t, [n]) := site_unique wf hkc.static hstat (by
+    rw [hpc] at hpc'; injection hpc' with hpc'; simpa [sitePath] using hpc'.symm)
+  subst this
+  have := hkc.ident hoc hpc'
+  simpa [svalOf, identSV] using this
+
+/-- **completeness, clause 1, for projects**: in a well-formed project, a name bound at module level
+by `from M import n [as x]`, where `M` names the module that DEFINES `n`, resolves to that
+definition. -/
+theorem resolve_from_definer (proj : Project) (rank : List Nat) (hwf : WF proj rank = true)
+    (ord : List Nat) (hclean : (run proj ord).bad = false) (m t : Nat) (hm : m < proj.length)
+    (hmo : m ∈ ord) (hto : t ∈ ord) {lvl : Nat} {M : Path} {n : Name} {a : Option Name}
+    (hst : Stmt.importFrom lvl M n a ∈ bodyOf proj m) (htgt : target proj m lvl M = some t)
+    {st : Stmt} (hdef : st ∈ bodyOf proj t) (hdn : st.defName = some n) :
+    pdResolve proj ord m [] [a.getD n] = some (.dfn (pathOf proj t ++ [n])) := by
+  have wf := WF.facts hwf
+  obtain ⟨hI, hn, hproc⟩ := run_ok wf ord hclean
+  obtain ⟨T, hT, hmT⟩ := target_spec htgt
+  obtain ⟨htl, hpT⟩ := modIdx_spec hmT
+  unfold pdResolve resolveIn
+  generalize run proj ord = s at hI hn hproc
+  obtain ⟨o, tgt, ho, hmcl, hcn, hda, hD⟩ :=
+    alias_of_stmt wf hI hm (hproc m hmo) hst (x := a.getD n) (by simp [explicitNames]) rfl
+  obtain ⟨_, T', hT', htgt'⟩ := hD
+  have := abs_eq hT' hT; subst this
+  obtain ⟨ot, c, _, _, _, _, hreg, hid⟩ := def_registered wf hI htl (hproc t hto) hdef hdn
+  rw [hpT] at hreg hid
+  have hcls : o.cls = .module ∨ o.cls = .package := by
+    cases hc : o.cls <;> simp_all [isModuleCls]
+  have hres := Names.resolve_direct_import (finalEnv s) m o (a.getD n) tgt c ho hcls hcn hda (by rw [htgt']; exact hreg)
+  simp only [walk, hres, hid, hpT]
+
+/-- **completeness, clause 2, for projects**: `alias.n`, where `import M as alias` names the module
+that defines `n`, resolves to that definition. -/
+theorem resolve_via_module_alias (proj : Project) (rank : List Nat) (hwf : WF proj rank = true)
+    (ord : List Nat) (hclean : (run proj ord).bad = false) (m t : Nat) (hm : m < proj.length)
+    (hmo : m ∈ ord) (hto : t ∈ ord) {M : Path} {al n : Name}
+    (hst : Stmt.importMod M (some al) ∈ bodyOf proj m) (htgt : modIdx proj M = some t)
+    {st : Stmt} (hdef : st ∈ bodyOf proj t) (hdn : st.defName = some n) :
+    pdResolve proj ord m [] [al, n] = some (.dfn (pathOf proj t ++ [n])) := by
+  have wf := WF.facts hwf
+  obtain ⟨hI, hn, hproc⟩ := run_ok wf ord hclean
+  obtain ⟨htl, hpT⟩ := modIdx_spec htgt
+  unfold pdResolve resolveIn
+  generalize run proj ord = s at hI hn hproc
+  obtain ⟨o, tgt, ho, hmcl, hcn, hda, hD⟩ :=
+    alias_of_stmt wf hI hm (hproc m hmo) hst (x := al) (by simp [explicitNames]) rfl
+  obtain ⟨_, htgt'⟩ := hD
+  rw [htgt'] at hda
+  obtain ⟨ot, c, hot, hmot, hdc, hpc, hreg, hid⟩ := def_registered wf hI htl (hproc t hto) hdef hdn
+  obtain ⟨ot', _, hpt, _⟩ := hI.mods t htl
+  have hregt : dget s.reg.all M = some t := by rw [← hpT]; exact dget_of_path hI.reg hpt
+  have hcls : o.cls = .module ∨ o.cls = .package := by
+    cases hc : o.cls <;> simp_all [isModuleCls]
+  have hclst : ot.cls = .module ∨ ot.cls = .package := by
+    cases hc : ot.cls <;> simp_all [isModuleCls]
+  have hne : pathOf proj t ++ [n] ≠ [n] := by
+    intro h
+    have := congrArg List.length h
+    simp at this
+    exact (wf.parentOk t htl).1 this
+  have hres := Names.resolve_module_alias (finalEnv s) m t c o ot al n M (pathOf proj t ++ [n]) ho hcls hcn hda
+    hregt hot hclst hdc hpc hne hreg
+  simp only [walk, hres, hid]
+
+end Imports
+
+namespace Imports
+open Registry
+
+/-! ## non-vacuity: a multi-package project with star, relative and aliased imports, imports in a
+class body and a package re-import satisfies every hypothesis, and the theorems apply to it -/
+
+/-- ```
+pa/__init__.py   from pa.m1 import K as KK
+pa/m1.py         class K: (def g; W = 7)      def f      V = 1
+pb/__init__.py
+pb/sub.py        from pa.m1 import *          from .oth import G as gg
+pb/oth.py        def G
+top.py           import pa.m1 as mm           import pb.sub          class C: from pa.m1 import K as kk
+``` -/
+def exProj : Project := [
+  ⟨[['p','a']], true, [.importFrom 0 [['p','a'],['m','1']] ['K'] (some ['K','K'])]⟩,
+  ⟨[['p','a'],['m','1']], false, [.classDef ['K'] [] [.funcDef ['g'], .assign ['W'] 7], .funcDef ['f'], .assign ['V'] 1]⟩,
+  ⟨[['p','b']], true, []⟩,
+  ⟨[['p','b'],['s','u','b']], false, [.importStar 0 [['p','a'],['m','1']], .importFrom 1 [['o','t','h']] ['G'] (some ['g','g'])]⟩,
+  ⟨[['p','b'],['o','t','h']], false, [.funcDef ['G']]⟩,
+  ⟨[['t','o','p']], false, [.importMod [['p','a'],['m','1']] (some ['m','m']), .importMod [['p','b'],['s','u','b']] none,
+      .classDef ['C'] [] [.importFrom 0 [['p','a'],['m','1']] ['K'] (some ['k','k'])]]⟩ ]
+/-- a topological index of `exProj` (module `pa.m1` first, `top` last) -/
+def exRank : List Nat := [1, 0, 2, 4, 3, 5]
+def exOrd : List Nat := [0, 1, 2, 3, 4, 5]
+
+example : WF exProj exRank = true := by decide +kernel
+example : (run exProj exOrd).bad = false := by decide +kernel
+example : (PyImp.run exProj exOrd).err = false := by decide +kernel
+-- star import; relative import; module alias + attribute chain; import inside a class body; plain import
+example : pdResolve exProj exOrd 3 [] [['K']] = some (.dfn [['p','a'],['m','1'],['K']]) := by decide +kernel
+example : PyImp.pyDenotes exProj exOrd 3 [] [['K']] = some (.dfn [['p','a'],['m','1'],['K']]) := by decide +kernel
+example : pdResolve exProj exOrd 3 [] [['g','g']] = some (.dfn [['p','b'],['o','t','h'],['G']]) := by decide +kernel
+example : PyImp.pyDenotes exProj exOrd 3 [] [['g','g']] = some (.dfn [['p','b'],['o','t','h'],['G']]) := by decide +kernel
+example : pdResolve exProj exOrd 5 [] [['m','m'],['K'],['g']] = some (.dfn [['p','a'],['m','1'],['K'],['g']]) := by
+  decide +kernel
+example : PyImp.pyDenotes exProj exOrd 5 [] [['m','m'],['K'],['g']] = some (.dfn [['p','a'],['m','1'],['K'],['g']]) := by
+  decide +kernel
+example : pdResolve exProj exOrd 5 [['C']] [['k','k'],['W']] = some (.dfn [['p','a'],['m','1'],['K'],['W']]) := by
+  decide +kernel
+example : PyImp.pyDenotes exProj exOrd 5 [['C']] [['k','k'],['W']] = some (.dfn [['p','a'],['m','1'],['K'],['W']]) := by
+  decide +kernel
+example : pdResolve exProj exOrd 5 [] [['p','b'],['s','u','b'],['f']] = some (.dfn [['p','a'],['m','1'],['f']]) := by
+  decide +kernel
+-- the same answers when the modules are processed / imported in the reverse order
+example : pdResolve exProj exOrd.reverse 3 [] [['K']] = PyImp.pyDenotes exProj exOrd.reverse 3 [] [['K']] := by
+  decide +kernel
+-- the hypotheses of the completeness theorems hold for `from pa.m1 import K as KK` and `import pa.m1 as mm`
+example : pdResolve exProj exOrd 0 [] [['K','K']] = some (.dfn (pathOf exProj 1 ++ [['K']])) :=
+  resolve_from_definer exProj exRank (by decide +kernel) exOrd (by decide +kernel) 0 1 (by decide) (by decide) (by decide)
+    (lvl := 0) (M := [['p','a'],['m','1']]) (n := ['K']) (a := some ['K','K']) (by simp [bodyOf, exProj]) (by decide +kernel)
+    (st := .classDef ['K'] [] [.funcDef ['g'], .assign ['W'] 7]) (by simp [bodyOf, exProj]) rfl
+example : pdResolve exProj exOrd 5 [] [['m','m'], ['f']] = some (.dfn (pathOf exProj 1 ++ [['f']])) :=
+  resolve_via_module_alias exProj exRank (by decide +kernel) exOrd (by decide +kernel) 5 1 (by decide) (by decide) (by decide)
+    (M := [['p','a'],['m','1']]) (al := ['m','m']) (n := ['f']) (by simp [bodyOf, exProj]) (by decide +kernel)
+    (st := .funcDef ['f']) (by simp [bodyOf, exProj]) rfl
+
+/-! ## why the statement speaks of BOUND names
+
+`pdResolve … = some obj → pyDenotes … = some obj` without "Python binds the name" is false, also
+after every fix: pydoctor's star import takes the names of a package's submodules whether or not
+they have been imported yet, Python takes only attributes that exist at that moment.  The name is
+then not bound under Python (outside the property's quantifier: an observation, not a violation). -/
+
+/-- `pa/__init__.py` (empty), `pa/m1.py` (empty), `top.py`: `from pa import *` -/
+def exUnbound : Project := [
+  ⟨[['p','a']], true, []⟩, ⟨[['p','a'],['m','1']], false, []⟩,
+  ⟨[['t','o','p']], false, [.importStar 0 [['p','a']]]⟩ ]
+
+theorem resolve_sound_unbound_counterexample :
+    WF exUnbound [0, 1, 2] = true ∧ (run exUnbound [0, 1, 2]).bad = false ∧
+    pdResolve exUnbound [0, 1, 2] 2 [] [['m','1']] = some (.mod [['p','a'],['m','1']]) ∧
+    PyImp.pyDenotes exUnbound [2, 0, 1] 2 [] [['m','1']] = none ∧
+    (PyImp.run exUnbound [2, 0, 1]).err = false := by
+  decide +kernel
+
+end Imports
